@@ -240,82 +240,107 @@ def h_auth(bad_from: int, d0: int, d1: int, d2: int, t0: bool, t1: bool) -> bool
 
 
 # ------------------------------------------------------------------------------------------------ H3
-def run_throttle(fails, d0, d1, gaps):
-    """Object A's PATCH fails (500, escalated) on the events flagged in `fails`; B is healthy."""
+def run_throttle(fails, d0, d1, gaps, ties=()):
+    """The real watcher -> worker -> process_resource_event(no_throttling=False) composition for object A whose PATCH
+    fails (500, escalated) on the attempts flagged in `fails`; object B shares the stream and is healthy."""
+    import functools
+    from kopf._cogs.structs import ephemera
+    from kopf._core.reactor import queueing
     wa = World(base_body(name='a', uid='ua'))
     loop = wa.loop
-    wb = World(base_body(name='b', uid='ub'), loop=loop)
-    wb.memories, wb.registry, wb.settings = wa.memories, wa.registry, wa.settings
     wa.settings.queueing.error_delays = [d0, d1]
+    wa.settings.queueing.idle_timeout = 1
+    wa.settings.persistence.consistency_timeout = 0
     calls = []
+    servers = {'ua': wa.server, 'ub': World(base_body(name='b', uid='ub'), loop=loop).server}
+    attempt = {'n': 0}
 
     @kopf.on.event(PLURAL, id='ev', registry=wa.registry)
     async def ev(name, patch, **_):
         calls.append((name, loop.time()))
         patch.status['seen'] = len(calls)
+        if name == 'a':
+            i = attempt['n']
+            attempt['n'] += 1
+            if i < len(fails) and fails[i]:
+                servers['ua'].fail_with[len(servers['ua'].requests)] = 500
+
+    async def fake_patch(url, **kw):
+        srv = servers['ua'] if '/a' in url.split('/kopfexamples')[-1] else servers['ub']
+        return await srv.patch(url, **kw)
+
+    async def fake_stream(**_):
+        for i, g in enumerate(gaps):
+            if g > 0:
+                await asyncio.sleep(g)
+            yield {'type': 'MODIFIED', 'object': dict(base_body(name='a', uid='ua'), spec={'i': i})}
+            yield {'type': 'MODIFIED', 'object': dict(base_body(name='b', uid='ub'), spec={'i': i})}
+        await asyncio.Event().wait()
 
     async def main():
+        from kopf._cogs.clients import api as api_
+        orig = (api_.patch, queueing.watching.infinite_watch)
+        api_.patch = fake_patch
+        queueing.watching.infinite_watch = fake_stream
         try:
-            for i, (f, g) in enumerate(zip(fails, gaps)):
-                if g > 0:
-                    await asyncio.sleep(g)
-                if f:
-                    wa.server.fail_with[len(wa.server.requests)] = 500
-                ta = loop.time()
-                try:
-                    await wa.process('MODIFIED', no_throttling=False)
-                except Exception as e:
-                    calls.append(('ESCAPED', repr(e)))
-                calls.append(('a_done', loop.time()))
-                await wb.process('MODIFIED', no_throttling=False)
+            processor = functools.partial(processing.process_resource_event, lifecycle=wa.lifecycle, registry=wa.registry,
+                                          settings=wa.settings, indexers=wa.indexers, memories=wa.memories,
+                                          memobase=ephemera.Memo(), event_queue=asyncio.Queue(), resource=wa.resource)
+            task = asyncio.create_task(queueing.watcher(namespace=None, settings=wa.settings, resource=wa.resource,
+                                                        processor=processor))
+            await asyncio.sleep(sum(gaps) + 3 * (d0 + d1) + 20)
+            died = task.done()
+            task.cancel()
+            await asyncio.gather(task, return_exceptions=True)
+            return died
         finally:
+            api_.patch, queueing.watching.infinite_watch = orig
             await cancel_all_others()
-    wa.run(main())
-    return calls, wa
+    died = wa.run(main(), ties=ties, max_steps=20000)
+    return calls, died
 
 
-def h_throttle(f0: bool, f1: bool, f2: bool, d0: int, d1: int, g1: int, g2: int) -> bool:
+def h_throttle(f0: bool, f1: bool, f2: bool, d0: int, d1: int, g1: int, g2: int, g3: int, t0: bool, t1: bool) -> bool:
     """
-    pre: d0 >= 0 and d1 >= 0 and g1 >= 0 and g2 >= 0
+    pre: d0 >= 1 and d1 >= 1 and g1 >= 0 and g2 >= 0 and g3 >= 0
     post: _ == True
     """
     vkopf.begin_path()
     fails = [f0, f1, f2]
+    gaps = [0, g1, g2, g3][:vkopf.cell('events', 4)]
     try:
-        calls, wa = run_throttle(fails, d0, d1, [0, g1, g2])
+        calls, died = run_throttle(fails, d0, d1, gaps, ties=[t0, t1])
     except (Deadlock, Diverged, Livelock):
         return vkopf.verdict(False)
-    ok = not any(c[0] == 'ESCAPED' for c in calls)        # never fatal: the error does not escape the processor
+    ok = not died                                          # never fatal: the watcher keeps running
     a_runs = [t for n, t in calls if n == 'a']
     b_runs = [t for n, t in calls if n == 'b']
-    a_done = [t for n, t in calls if n == 'a_done']
-    if len(b_runs) != 3:
-        ok = False                                         # the healthy object is processed on every event
-    # after an escalated error A stays paused for the configured delay (growing per consecutive error, reset by success)
-    consecutive = 0
-    t_ok_after = 0
-    for i in range(3):
-        if i < len(a_done) and i < len(fails):
-            pass
+    arrivals = []
+    acc = 0
+    for g in gaps:
+        acc = acc + g
+        arrivals.append(acc)
+    if b_runs != arrivals:
+        ok = False                                         # the healthy object is processed at every arrival, undelayed
+    # after an escalated error A stays paused for the configured delay: growing per consecutive error, reset by a success
     delays = [d0, d1]
-    idx = 0
-    expect_resume = None
-    j = 0
-    for i in range(3):
-        started = a_runs[j] if j < len(a_runs) else None
-        if started is None:
-            break
-        if expect_resume is not None and started < expect_resume:
-            ok = False
-        j += 1
-        if fails[i]:
-            d = delays[min(idx, 1)]
-            idx += 1
-            expect_resume = started + d
+    consecutive = 0
+    for i, t in enumerate(a_runs):
+        failed = i < len(fails) and fails[i]
+        if failed:
+            d = delays[consecutive] if consecutive < 2 else d1
+            nxt = a_runs[i + 1] if i + 1 < len(a_runs) else None
+            if nxt is not None and nxt < t + d:
+                ok = False
+            consecutive += 1
             vkopf.witness('throttled')
+            if consecutive >= 2:
+                vkopf.witness('grown')
         else:
-            idx = 0
-            expect_resume = None
+            consecutive = 0
+    # processing recovers: the last event of A is eventually handled (not lost to the pauses)
+    if not a_runs or a_runs[-1] < arrivals[-1]:
+        ok = False
     return vkopf.verdict(ok)
 
 
@@ -327,5 +352,6 @@ def obligations():
     obs.append(Ob('h_auth', {'k': 1}, timeout=1500, twins=['reauthenticated']))
     obs.append(Ob('h_auth', {'k': 2}, timeout=3000))
     obs.append(Ob('h_auth', {'k': 3}, timeout=3400, tiers=('thorough',)))
-    obs.append(Ob('h_throttle', {}, timeout=2400, twins=['throttled']))
+    obs.append(Ob('h_throttle', {'events': 3}, timeout=2400, path_timeout=300, twins=['throttled', 'grown']))
+    obs.append(Ob('h_throttle', {'events': 4}, timeout=3400, path_timeout=300, tiers=('thorough',)))
     return obs
